@@ -45,6 +45,13 @@ V("c01-n-store-ub-and-reuse", "C01", "pass", edits=[(SC, "        self.current_j
 V("c01-n-swap-comparison-sides", "C01", "pass", edits=[(EV, "event_alias.start_time_jd <= julian_date_ub", "julian_date_ub >= event_alias.start_time_jd")])
 V("c01-n-rename-local", "C01", "pass", edits=[(SC, "        next_jd = (self.clock.time", "        upper_jd = (self.clock.time"), (SC, "            prior_jd,\n            next_jd,\n            self.logger,", "            prior_jd,\n            upper_jd,\n            self.logger,"), (SC, "            prior_jd,\n            next_jd,\n        )", "            prior_jd,\n            upper_jd,\n        )")])
 
+SB_ = "sensors/sensor_base.py"
+_BQ = "        if self.host.sensor_time_bias_event_queue:\n            tgt_eci_state = self._applyTimeBias(target_agent)\n"
+V("c01-bias-applied-half-open", "C01", "violation", "C01.R14", edits=[(SB_, _BQ, "        if self.host.sensor_time_bias_event_queue and self.host.julian_date_epoch < self.host.sensor_time_bias_event_queue[0].end_time_jd:\n            tgt_eci_state = self._applyTimeBias(target_agent)\n")])
+V("c01-bias-applied-guard-clause-strict-start", "C01", "violation", "C01.R14", edits=[(SB_, "        # [NOTE][parallel-time-bias-event-handling] Step three: Check if a sensor has bias events\n", "        if self.host.sensor_time_bias_event_queue[0].start_time_jd >= self.host.julian_date_epoch:\n            return target_agent.eci_state\n")])
+V("c01-n-bias-applied-closed-interval", "C01", "pass", edits=[(SB_, _BQ, "        if self.host.sensor_time_bias_event_queue and self.host.sensor_time_bias_event_queue[0].start_time_jd <= self.host.julian_date_epoch <= self.host.sensor_time_bias_event_queue[0].end_time_jd:\n            tgt_eci_state = self._applyTimeBias(target_agent)\n")])
+V("c01-n-bias-queue-len-test", "C01", "pass", edits=[(SB_, _BQ, "        if len(self.host.sensor_time_bias_event_queue) > 0:\n            tgt_eci_state = self._applyTimeBias(target_agent)\n")])
+
 # ------------------------------------------------------------------------------------ C08
 TE = "parallel/tasking_execution.py"
 V("c08-revert-F6-bookkeeping", "C08", "violation", "C08.R1", revert="310bbe3")
@@ -671,3 +678,9 @@ V("c02-az-sign-lost", "C02", "violation", "C02.R11", edits=[("physics/measuremen
 V("c02-el-wrong-component", "C02", "violation", "C02.R11", edits=[("physics/measurements.py", "    return arcsin(slant_range_sez[2] / norm(slant_range_sez[:3]))", "    return arcsin(slant_range_sez[1] / norm(slant_range_sez[:3]))")])
 V("c20-az-args-swapped", "C20", "violation", "C20.R5", edits=[("physics/measurements.py", "        azimuth = arctan2(slant_range_sez[1], -1.0 * slant_range_sez[0])", "        azimuth = arctan2(-1.0 * slant_range_sez[0], slant_range_sez[1])")])
 V("c20-s2c-y-from-cos", "C20", "violation", "C20.R5", edits=[("physics/transforms/methods.py", "            rho * c_th * s_phi,\n", "            rho * c_th * c_phi,\n")])
+
+# ------------------------------------------------------------------------------------ C20 (final position provenance)
+_IODF = "estimation/initial_orbit_determination.py"
+_FS_OLD = "        for observation in observations:\n            if observation.range_km:\n                return radarObs2eciPosition(observation)\n\n        return None\n"
+V("c20-n-final-position-mean-of-inverted", "C20", "pass", edits=[(_IODF, _FS_OLD, "        count = 0\n        final_position = None\n        for observation in observations:\n            if observation.range_km:\n                position = radarObs2eciPosition(observation)\n                final_position = position if final_position is None else final_position + position\n                count += 1\n        if final_position is None:\n            return None\n        return final_position / count\n")], note="property-holding (mean over exactly the inverted observations)")
+V("c20-final-position-mean-counter-outside-guard", "C20", "violation", "C20.R3", edits=[(_IODF, _FS_OLD, "        count = 0\n        final_position = None\n        for observation in observations:\n            count += 1\n            if observation.range_km:\n                position = radarObs2eciPosition(observation)\n                final_position = position if final_position is None else final_position + position\n        if final_position is None:\n            return None\n        return final_position / count\n")])
